@@ -406,7 +406,19 @@ def _t1(ctx: Context) -> None:
     a = ctx.func(f"{M}.tlv_array")
     abuf = a.pos_params[0]
     ys = [x for x in walk_own(a.node) if isinstance(x, ast.Yield)]
-    srcs = sorted(src(y.value) for y in ys if y.value is not None)
+    simple = {x.targets[0].id: x.value for x in walk_own(a.node) if isinstance(x, ast.Assign) and isinstance(x.targets[0], ast.Name)}
+    nassign = {}
+    for x in walk_own(a.node):
+        if isinstance(x, ast.Assign) and isinstance(x.targets[0], ast.Name):
+            nassign[x.targets[0].id] = nassign.get(x.targets[0].id, 0) + 1
+
+    def deref(e):
+        # a yielded local that is assigned exactly once stands for its defining expression
+        if isinstance(e, ast.Name) and nassign.get(e.id) == 1:
+            return simple[e.id]
+        return e
+
+    srcs = sorted(src(deref(y.value)) for y in ys if y.value is not None)
     loops = [x for x in walk_own(a.node) if isinstance(x, ast.For)]
     oky = False
     if len(loops) == 1 and isinstance(loops[0].target, ast.Tuple) and len(loops[0].target.elts) == 4:
@@ -414,7 +426,7 @@ def _t1(ctx: Context) -> None:
         starts = [x for x in walk_own(a.node) if isinstance(x, ast.Assign) and isinstance(x.targets[0], ast.Name) and src(x.value) in (f"{o2}+2", f"2+{o2}")]
         if len(starts) == 1:
             sv = starts[0].targets[0].id
-            oky = srcs == sorted([f"{abuf}[{sv}:{o2}]", "item"]) or srcs == sorted([f"{abuf}[{sv}:{o2}]", f"{abuf}[{sv}:]"])
+            oky = srcs == sorted([f"{abuf}[{sv}:{o2}]", f"{abuf}[{sv}:]"])
     ck.check("C16.T1", oky, "tlv_array: item = buffer[start:offset of the separator], start = that offset + 2, tail = buffer[start:]", f"{ctx.fkey(a)}:slices", f"tlv_array yields {srcs}", a.loc())
 
 
